@@ -211,7 +211,7 @@ impl<'a> RtcpPacketWriter for ByeBuilder<'a> {
             }
         }
 
-        end += writer::write_padding_unchecked(self.padding, &mut buf[idx..]);
+        end += writer::write_padding_unchecked(self.padding, &mut buf[end..]);
 
         end
     }
